@@ -1,7 +1,7 @@
 /-
 C10 driver: one JSON request per line on stdin, one JSON answer per line on stdout.
 Ops (see tools/props/c10.py):
-  parse, decor, term, coll, access, spec_access, derefvar, mdreg, mf, enum, spec_enum, cols, spec_frag, roundtrip
+  parse, decor, term, coll, access, spec_access, derefvar, mdreg, mf, enum, spec_enum, spec_enum_world, cols, spec_frag, roundtrip
 Run: lake env lean --run FaxVerif/C10/Driver.lean
 -/
 import Lean.Data.Json
@@ -93,8 +93,10 @@ def getEnumDefs (j : Json) : Except String (List EnumDef) := do
       let values ← strList (← d.getObjVal? "values")
       pure ⟨ns, name, values⟩
 
-def nsStateOf (defs : List EnumDef) : NsState :=
-  defs.foldl (fun st d => defineEnum st d.ns.toList d.name.toList (d.values.map String.toList)) NsState.empty
+def toDecls (defs : List EnumDef) : List EnumDecl :=
+  defs.map fun d => ⟨d.ns.toList, d.name.toList, d.values.map String.toList⟩
+
+def nsStateOf (defs : List EnumDef) : NsState := defineAll NsState.empty (toDecls defs)
 
 /-- C++ text of every constant ↦ C++ name of its enum type -/
 def enumTable (st : NsState) : List (String × String) :=
@@ -231,6 +233,21 @@ def handleOp (op : String) (j : Json) : Except String Json := do
     let st := nsStateOf (← getEnumDefs j)
     let path ← strList (← j.getObjVal? "path")
     pure (resJ (resolvePath st (path.map String.toList)))
+  else if op == "spec_enum_world" then
+    -- Spec on the implementation: stated on the declarations alone (`expectedEnum`), not on the model's table
+    let decls := toDecls (← getEnumDefs j)
+    let path := (← strList (← j.getObjVal? "path")).map String.toList
+    let obs := optStr j "obs"
+    if path.length < 3 then pure (Json.mkObj [("obliged", false), ("holds", true), ("render_ok", true)])
+    else
+      let p := path.take (path.length - 2)
+      let name := path.getD (path.length - 2) []
+      let v := path.getD (path.length - 1) []
+      -- whatever resolves to a value must be the qualified name
+      let renderOk : Bool := match obs with | none => true | some o => decide (EnumOk p v o.toList)
+      match expectedEnum decls p name v with
+      | none => pure (Json.mkObj [("obliged", false), ("holds", true), ("render_ok", renderOk)])
+      | some cpp => pure (Json.mkObj [("obliged", true), ("expected", jS cpp), ("holds", decide (obs = some (S cpp))), ("render_ok", renderOk)])
   else if op == "spec_enum" then
     let ns ← (← j.getObjVal? "ns").getStr?
     let v ← (← j.getObjVal? "v").getStr?
